@@ -202,13 +202,16 @@ PosFrom(toks, i, seps, k, line, col) ==
            b == AdvText(sep, 1, a[1], a[2])
        IN PosFrom(toks, i + 1, seps, k, b[1], b[2])
 PosOfTok(toks, pre, seps, k) == LET a == AdvText(pre, 1, 1, 0) IN PosFrom(toks, 1, seps, k, a[1], a[2])
-WildSeps == <<" ", "\n", "\t ", "", "  \n ", "">>
+WildSeps == <<" ", "\n", "\t ", "", "  \n ", "", "\f", "\r\n">>
 PosMin(toks, k)  == PosOfTok(toks, "", <<"">>, k)
 PosWild(toks, k) == PosOfTok(toks, " ", WildSeps, k)
 
+(* the two-word operator written with other white space between its words *)
+SpreadNotIn(toks) == [i \in 1..Len(toks) |-> IF toks[i] = TOp("not in") THEN TOp("not \n\tin") ELSE toks[i]]
 TextMin(toks)    == Join(toks, 1, <<"">>)
 TextSpaced(toks) == Join(toks, 1, <<" ">>)
 TextWild(toks)   == " " \o Join(toks, 1, WildSeps) \o "\n"
+TextWild2(toks)  == Join(SpreadNotIn(toks), 1, <<"\t", "\f ", " \r", "\n\n">>)
 
 ---------------------------------------------------------------------------
 (* The reference parser: precedence climbing over the tables above.        *)
